@@ -1,0 +1,8 @@
+//go:build !verif
+
+package radius
+
+// verifCrashPoint marks a persistence/transmit step of the accounting manager (the places
+// where a process crash leaves a distinguishable durable state). It does nothing unless the
+// package is built with the verif tag (see verif_hooks_acct.go).
+func (am *AccountingManager) verifCrashPoint(int, string) {}
